@@ -29,6 +29,8 @@ CORPUS = [
     "{...: 1}", "{b'k': 1}", "{1j: 'x'}", "{(1, ...): 'x'}", "{(1, 2): 'x'}", "{None: 1}", "{True: 1, 1.5: 2}", "[{...: 1}]", "{'a': {b'k': 1}}",
     "[(1, 2), {3}]", "{'a': (1, [2, ...])}", "{frozenset({1}): 1}",
     # bot intents that name context variables which are not strings
+    # generated flows that parse but are long, loop for ever or call something that does not exist
+    "bot a\n" + "".join(f"bot say something {i}\n" for i in range(40)), "bot a\nwhile True\n  $x = 1", "bot a\ndo something undefined\nbot b", "bot a\nif $foo.bar\n  bot b",
     "bot $event", "bot $generation_options", "bot $relevant_chunks", "bot $last_user_message", "  ask\nbot $event",
 ]
 
@@ -96,9 +98,34 @@ def build(version, mode):
     return World(colang, yaml if yaml else "rails:\n  dialog:\n    single_call:\n      enabled: False\n")
 
 
+class TurnTimeout(BaseException):
+    pass
+
+
+def _on_alarm(*_a):
+    raise TurnTimeout("the turn did not complete within the wall-clock horizon")
+
+
+TURN_HORIZON_S = 20
+
+
+def run_turn_guarded(world, *a, **kw):
+    """rw.run_turn with a wall-clock horizon (a turn that never returns is an observation, not a hung check)"""
+    import signal
+    signal.signal(signal.SIGALRM, _on_alarm)
+    signal.alarm(TURN_HORIZON_S)
+    try:
+        return rw.run_turn(world, *a, **kw)
+    finally:
+        signal.alarm(0)
+
+
 def check_reply(turn, hostile_list, user_text):
     """returns list of (sig, what)"""
     out = []
+    if isinstance(turn.exc, TurnTimeout):
+        out.append(("generate-does-not-return", f"generate() was still running after {TURN_HORIZON_S} s"))
+        return out
     if turn.exc is not None:
         e = turn.exc
         import re as _re
@@ -149,7 +176,7 @@ def explore(task):
             return well_formed(task, prompt, version, mode)
         nonce[0] += 1
         utext = ut if v2 else f"UMARK{nonce[0]}q hello there"
-        ref = rw.run_turn(world, [{"role": "user", "content": utext}], {}, wf, state={} if v2 else None)
+        ref = run_turn_guarded(world, [{"role": "user", "content": utext}], {}, wf, state={} if v2 else None)
         if ref.exc is not None:
             res["viol"].append((f"well-formed-run-raised:{version}:{mode}", repr(ref.exc), info0))
             continue
@@ -172,12 +199,15 @@ def explore(task):
                         return _hs[k]
                     return well_formed(task, prompt, version, mode)
 
-                turn = rw.run_turn(world, [{"role": "user", "content": utext}], {}, fn, state={} if v2 else None)
+                turn = run_turn_guarded(world, [{"role": "user", "content": utext}], {}, fn, state={} if v2 else None)
                 res["turns"] += 1
                 info = dict(info0, user=utext, hostile={str(k): (v if len(v) < 300 else v[:40] + f"...(len {len(v)})") for k, v in hs.items()},
                             hostile_full_len={str(k): len(v) for k, v in hs.items()})
                 for sig, what in check_reply(turn, list(hs.values()), utext):
                     res["viol"].append((f"{sig}:{'v2' if v2 else 'v1'}:{mode}:call{pos[0]}", what, info))
+                if isinstance(turn.exc, TurnTimeout):
+                    world = build(version, mode)   # the interrupted instance is not used again
+                    continue
                 if turn.exc is None and turn.text and h.strip() and h.strip()[:30] in (turn.text or ""):
                     res["hostile_reached_reply"] += 1
                 # second turn after the hostile one, well-formed
@@ -185,12 +215,12 @@ def explore(task):
                     reply = turn.reply if isinstance(turn.reply, dict) else None
                     if reply and reply.get("role") == "assistant":
                         msgs = [{"role": "user", "content": utext}, reply, {"role": "user", "content": utext + " again"}]
-                        t2 = rw.run_turn(world, msgs, {}, wf)
+                        t2 = run_turn_guarded(world, msgs, {}, wf)
                         res["turns"] += 1
                         for sig, what in check_reply(t2, [h], utext):
                             res["viol"].append((f"{sig}:v1:{mode}:next-turn-after-call{pos[0]}", what, dict(info, second_turn=True)))
                 elif turn.exc is None and v2 and turn.reply is not None:
-                    t2 = rw.run_turn(world, [{"role": "user", "content": "something else"}], {}, wf, state=turn.reply.state)
+                    t2 = run_turn_guarded(world, [{"role": "user", "content": "something else"}], {}, wf, state=turn.reply.state)
                     res["turns"] += 1
                     for sig, what in check_reply(t2, [h], utext):
                         res["viol"].append((f"{sig}:v2:{mode}:next-turn-after-call{pos[0]}", what, dict(info, second_turn=True)))
@@ -207,7 +237,7 @@ def explore(task):
                         k = i - _base
                         return _hs[k] if k in _hs else well_formed(task, prompt, version, mode)
 
-                    turn = rw.run_turn(world, [{"role": "user", "content": utext}], {}, fn2, state={} if v2 else None)
+                    turn = run_turn_guarded(world, [{"role": "user", "content": utext}], {}, fn2, state={} if v2 else None)
                     res["turns"] += 1
                     info = dict(info0, user=utext, hostile={str(k): v[:60] for k, v in hs.items()})
                     for sig, what in check_reply(turn, [ha, hb], utext):
